@@ -100,7 +100,9 @@ def interp(kind, events, path):
                     con, is_new = pool.connect(); held = con
                     obs.append(['connect', canon(con), bool(is_new)])
                 elif act == 'stmt':
-                    if held is not None: held.execute(MARK)
+                    try:
+                        if held is not None: held.execute(MARK)
+                    except sqlite3.ProgrammingError: pass      # statement sent to a connection that was closed under the session (model: logged as issued)
                     obs.append(['stmt', 'ok'])
                 elif act == 'release':
                     h, held = held, None
@@ -270,7 +272,8 @@ def fork_point_run(ctx, work, point, child_mode, n):
             n0 = len(LOG)
             if child_mode == 'disconnect-first': db.disconnect()
             with db_session:
-                out['seen1'] = sorted(select(t.v for t in T)[:]); T(v=100)
+                out['seen1'] = sorted(select(t.v for t in T)[:])
+                if point != 'open': T(v=100)    # (inside the inherited open session the child only reads: nothing is written through the parent's connection)
             write_all(w1, b'c')                 # tell the parent the child has committed 100
             os.read(r2, 1)                      # wait until the parent has committed 3
             with db_session:
@@ -365,7 +368,7 @@ def fork_point_run(ctx, work, point, child_mode, n):
         got = {'seen1': c.get('seen1'), 'parent_sees_after_child_commit': res.get('parent_sees_after_child_commit'), 'seen2': c.get('seen2'), 'final': res.get('final')}
         if got != exp:
             ctx.violation('rows committed by one process are not seen by the other', inp, observed=got, expected=exp, key='fork:%s:%s:visibility' % (point, child_mode))
-        if point == 'pooled' and c.get('forked') != [[parent, parent]]:
+        if point == 'pooled' and child_mode == 'sessions-only' and c.get('forked') != [[parent, parent]]:
             ctx.violation('the inherited connection was not parked in forked_connections', inp, observed=c.get('forked'), expected=[['parent pid', 'parent pid']], key='fork:pooled:not-parked')
     if point == 'open':
         ctx.extra.setdefault('open_txn_observation', {'child_seen_in_inherited_session': c.get('seen1'), 'parent_final': res.get('final'), 'child_error': c.get('error')})
